@@ -108,6 +108,22 @@ def gen_tracepoints(r, prog):
                  line_trigger(tp_id, prog.base, line, args, watches, metrics))
         trigs.append(b)
         desc.append([tp_id, kind, fn or line, args, watches])
+    for fn in [f for f in funcs if f.startswith('kept_error_')]:
+        # asking a kept outcome for its result raises the error the program keeps: an expression that fails with an
+        # exception object owned by the program (which reads that object's traceback afterwards)
+        line = prog.func_lines[fn] + r.pick([6, 7])
+        kind = r.pick(['watch', 'condition', 'log'])
+        args = {'fire_count': '-1', 'fire_period': '0'}
+        watches = []
+        if kind == 'watch':
+            watches = ['outcome.result()']
+        elif kind == 'condition':
+            args['condition'] = 'outcome.result() > 0'
+        else:
+            args['log_msg'] = 'result {outcome.result()}'
+        trigs.append(lambda tp_id='tpk_' + fn, line=line, args=args, watches=watches:
+                     line_trigger(tp_id, prog.base, line, args, watches, []))
+        desc.append(['tpk_' + fn, kind, line, args, watches])
     return trigs, desc
 
 
